@@ -387,7 +387,7 @@ fn visit(s: &Shape, level: usize, ctx: Ctx, stack: &mut Vec<W>, counter: &mut us
         Shape::Pos { .. } | Shape::Any { .. } | Shape::Literal { .. } => {
             ix.levels[level].has_positional = true;
         }
-        Shape::Pure(_) | Shape::PureWith(_) | Shape::Fail(_) => {}
+        Shape::Pure(_) | Shape::PureWith(_) | Shape::Fail(_) | Shape::Battery(_) => {}
         Shape::Cmd {
             name,
             shorts,
